@@ -124,5 +124,78 @@ pub fn run(_cfg: &Config, s: &mut Session, cx: &mut Ctx, d: &mut D) {
             }
         }
     }
+    probes(s, cx, d);
     let _ = Tag::new(b"r4__");
+}
+
+/// Probes of the length / element-size hypotheses the round-4 pairs are proved under (translator report `assumed`:
+/// `len(array) = <count expression>`, `every element has the scalars …`): a value that violates exactly one of them must
+/// be rejected by `validate()` or round-trip (labels `probe:free-len:`).
+fn probes(s: &mut Session, cx: &mut Ctx, d: &mut D) {
+    use write_fonts::tables::layout::{DeltaFormat, Device};
+    // Device: len(delta_value) vs DeltaFormat::value_count(delta_format, start_size, end_size)
+    for (fmt, lo, hi, n) in [(DeltaFormat::Local2BitDeltas, 9u16, 16u16, 2usize), (DeltaFormat::Local4BitDeltas, 9, 12, 0), (DeltaFormat::Local8BitDeltas, 9, 12, 3)] {
+        let v = Device { start_size: lo, end_size: hi, delta_format: fmt, delta_value: (0..n).map(|_| d.u16()).collect() };
+        rt!(s, cx, "Device", Device, r::layout::Device, &format!("probe:free-len:Device.delta_value={n}:format={fmt:?}:sizes={lo}..={hi}"), &v);
+    }
+    // DeltaSetIndexMap format 0: len(map_data) vs entry_size * map_count
+    for (k, count, n) in [(0u8, 3u16, 2usize), (1, 2, 5), (0, 0, 1)] {
+        use w::variations::{DeltaSetIndexMap, EntryFormat};
+        let m = DeltaSetIndexMap::format_0(EntryFormat::from_bits((k << 4) | 7).unwrap(), count, (0..n).map(|i| i as u8).collect());
+        rt!(s, cx, "DeltaSetIndexMap", DeltaSetIndexMap, r::variations::DeltaSetIndexMap, &format!("probe:free-len:DeltaSetIndexMapFormat0.map_data={n}:entry_size={}:map_count={count}", k + 1), &m);
+    }
+    // ItemVariationData: len(delta_sets) vs delta_sets_len(item_count, word_delta_count, region_index_count)
+    for (items, words, regions, n) in [(2u16, 0u16, 2usize, 3usize), (1, 1, 2, 2), (0, 0, 1, 1)] {
+        use w::variations::*;
+        let data = ItemVariationData::new(items, words, (0..regions as u16).collect(), (0..n).map(|i| i as u8).collect());
+        let rl = VariationRegionList::new(1, (0..regions).map(|_| VariationRegion { region_axes: vec![RegionAxisCoordinates { start_coord: f2(d), peak_coord: f2(d), end_coord: f2(d) }] }).collect());
+        let store = ItemVariationStore::new(rl, vec![Some(data)]);
+        rt!(s, cx, "ItemVariationStore", ItemVariationStore, r::variations::ItemVariationStore, &format!("probe:free-len:ItemVariationData.delta_sets={n}:item_count={items}:word_delta_count={words}:regions={regions}"), &store);
+    }
+    // VariationRegionList: every region has axis_count axes
+    for (axes, per) in [(2u16, 1usize), (1, 2), (0, 1)] {
+        use w::variations::*;
+        let rl = VariationRegionList::new(axes, (0..2).map(|_| VariationRegion { region_axes: (0..per).map(|_| RegionAxisCoordinates { start_coord: f2(d), peak_coord: f2(d), end_coord: f2(d) }).collect() }).collect());
+        let store = ItemVariationStore::new(rl, vec![]);
+        rt!(s, cx, "ItemVariationStore", ItemVariationStore, r::variations::ItemVariationStore, &format!("probe:free-len:VariationRegion.region_axes={per}:axis_count={axes}"), &store);
+    }
+    // TupleVariationHeader: tuple lengths vs the flags of tuple_index and the axis count
+    for (bits, peak, inter) in [(0x8000u16, 1usize, 0usize), (0x0000, 2, 0), (0xC000, 2, 1), (0x4001, 0, 0)] {
+        use w::variations::{TupleIndex, TupleVariationHeader};
+        let axes = 2u16;
+        let h = TupleVariationHeader {
+            variation_data_size: d.u16(),
+            tuple_index: TupleIndex::from_bits(bits),
+            peak_tuple: (0..peak).map(|_| f2(d)).collect(),
+            intermediate_start_tuple: (0..inter).map(|_| f2(d)).collect(),
+            intermediate_end_tuple: (0..inter).map(|_| f2(d)).collect(),
+        };
+        let read = |b: &[u8]| {
+            r::variations::TupleVariationHeader::read_with_args(FontData::new(b), &axes).map(|t| {
+                let vals = |x: Option<r::variations::Tuple>| x.map(|t| t.values().iter().map(|v| v.get()).collect::<Vec<_>>()).unwrap_or_default();
+                TupleVariationHeader {
+                    variation_data_size: t.variation_data_size(),
+                    tuple_index: t.tuple_index(),
+                    peak_tuple: vals(t.peak_tuple()),
+                    intermediate_start_tuple: vals(t.intermediate_start_tuple()),
+                    intermediate_end_tuple: vals(t.intermediate_end_tuple()),
+                }
+            })
+        };
+        roundtrip_via(s, "TupleVariationHeader", &format!("probe:free-len:TupleVariationHeader:tuple_index={bits:#x}:peak={peak}:intermediate={inter}:axes=2"), &h, read, |_, _| {});
+    }
+    // IFT table keyed patch: len(patches) vs patches_count + 1 … the owned type stores the patches without the sentinel
+    // offset; the count is a free field
+    {
+        use w::ift::*;
+        for (count, n) in [(3u16, 1usize), (0, 2)] {
+            let p = TableKeyedPatch::new(
+                Tag::new(b"iftk"),
+                read_fonts::tables::ift::CompatibilityId::from_u32s([1, 2, 3, 4]),
+                count,
+                (0..n).map(|i| TablePatch::new(d.tag(), TablePatchFlags::empty(), 10 + i as u32, vec![1, 2, 3])).collect(),
+            );
+            rt!(s, cx, "TableKeyedPatch", TableKeyedPatch, r::ift::TableKeyedPatch, &format!("probe:free-len:TableKeyedPatch.patches={n}:patches_count={count}"), &p, crate::norm_tkp);
+        }
+    }
 }
